@@ -384,12 +384,15 @@ class BaseRequest(MutableMapping[str | RequestKey[Any], Any], HeadersMixin):
                         value += port
                     elem[name.lower()] = value
                     pos += len(match.group(0))
-                elif not field_value[pos : field_value.find(";", pos)].strip(" \t"):
-                    # Empty value
-                    pos = field_value.find(";", pos) + 1
                 else:
-                    # bad syntax here, skip to next field value
-                    break
+                    end = field_value.find(";", pos)
+                    if end < 0:  # last pair: it runs to the end of the value
+                        end = len(field_value)
+                    if field_value[pos:end].strip(" \t"):
+                        # bad syntax here, skip to next field value
+                        break
+                    # Empty value
+                    pos = end + 1
         return tuple(elems)
 
     @reify
